@@ -200,7 +200,7 @@ class NJobsGrid(Component):
     rule = "every (join, right rows <= R, n_jobs <= rows+2) cell"
 
     def bounds(self, tier):
-        return {"rows": 64 if tier == "quick" else 128, "joins": list(gen.SET_JOIN_MEASURES)}
+        return {"rows": 40 if tier == "quick" else 128, "joins": list(gen.SET_JOIN_MEASURES)}
 
     def shards(self, tier):
         return 16
